@@ -15,6 +15,8 @@ RULE = ('case = (MAX_QUEUE_SIZE, flow control, watermark, batch size, dynamic ro
         'after a sequence a deterministic epilogue (all up, unpaused, timers fired) must leave every queue empty; '
         'exhaustive sequences up to length L from several prefixes for one destination, seeded random sequences of length '
         '30-200 for 1-3 destinations; non-trivial = sequence with >=1 connection event and >=2 arrivals; distinct = sequences')
+RULE_MORE = (" Variants also cover MAX_QUEUE_SIZE_HARD_PCT, USE_RATIO_RESET with statistics ticks (self-metrics injected every other tick), name caches, this daemon's PICKLE_RECEIVER_MAX_LENGTH, series under CARBON_METRIC_PREFIX; an orderly stop may not write after asking the transport to close; every arrival is compared with what the live router names.")
+RULE = RULE + RULE_MORE
 EXHAUSTIVE = {'quick': True, 'thorough': True}
 EXHAUSTIVE_OVER = 'all applicable event sequences up to length L (quick L=4, thorough L=5) after each listed prefix, one destination'
 ASSUMPTIONS = ['USE_RATIO_RESET, SSL and DESTINATION_POOL_REPLICAS off; <=3 destinations',
